@@ -81,7 +81,13 @@ impl Scenario for C03 {
     fn fingerprint(&self, w: &World, x: &X) -> String {
         let m = w.block_on(x.svc.metrics());
         let tsc = if m.state == CircuitState::Open { m.time_since_state_change.as_millis() as i64 } else { -1 };
-        format!("{:?}/{}/{}/{}/{}/{}", m.state, m.total_calls, m.failure_count, m.success_count, m.slow_call_count, tsc)
+        // the oracle's own memory is state too: how long ago the transition log last saw the
+        // breaker open (while that still shields). For a correct breaker this equals `tsc`; for
+        // one that mismanages its timer the two differ, and merging on `tsc` alone would fold a
+        // history whose shield has just restarted into one whose shield is about to end.
+        let now = w.now_ms();
+        let shield = t_open(&x.tl).filter(|t| now < t + self.cfg.wait_ms).map(|t| (now - t) as i64).unwrap_or(-1);
+        format!("{:?}/{}/{}/{}/{}/{}/{}", m.state, m.total_calls, m.failure_count, m.success_count, m.slow_call_count, tsc, shield)
     }
     fn before(&self, w: &World, x: &mut X, a: &Action) {
         let now = w.now_ms();
@@ -150,6 +156,9 @@ impl Scenario for C03 {
         }
         if tl.iter().any(|t| t.3 == CircuitState::HalfOpen) {
             v.push("went_half_open_after_wait");
+        }
+        if tl.iter().any(|t| t.2 == CircuitState::HalfOpen && t.3 == CircuitState::Open) {
+            v.push("reopened_by_a_failed_trial");
         }
         v
     }
